@@ -19,6 +19,43 @@ from .. import drive, env, sched
 from .. import findings as F
 
 PROPERTY = "C12"
+RULE = ("case = (mix of 2-4 requests against ONE fresh WsgiApplication, schedule). Requests run on "
+        "real threads made cooperative by a sys.settrace hook (pbt/sched.py): a yield point is "
+        "every line event inside handle_wsdl_request, wsdl11.py, xml_schema/_base.py, "
+        "get_cls_attrs, sort_fields, memoize*.__call__, cdict.__getitem__, __validate_lxml "
+        "(a line counts only the first 2 times one activation of the function reaches it) and "
+        "every call event elsewhere under spyne/protocol, spyne/server, spyne/interface, "
+        "application.py; spyne's Lock/RLock instances are replaced by scheduler-aware locks. "
+        "Schedules: all orders without pre-emption; for every 2-thread mix ALL schedules with "
+        "exactly one pre-emption (stride 1: every yield point of the first thread, both start "
+        "orders); a grid of two-pre-emption schedules (8x8 quick, 48x48 thorough per start "
+        "order); Hypothesis-generated pre-emption lists (<=4) and PCT priority schedules (<=3 "
+        "change points) for all mixes incl. the 3-4-thread ones; plus un-scheduled stress "
+        "(16-32 free-running threads, switch interval 1us). Oracle: (status, headers, body) "
+        "byte-identical to the request processed alone on an identically built application; "
+        "build_interface_document at most once; all ?wsdl callers get the sequential bytes; "
+        "nothing escapes; no deadlock. Non-trivial = >=1 pre-emption landed on a line inside "
+        "a shared-state function while another worker was runnable; distinct = (mix, "
+        "pre-emption site functions, direction); evaluations = schedules run")
+ASSUMPTIONS = [
+    "interleavings are explored at Python line / call granularity; switches inside C "
+    "extensions (lxml validating with the GIL released) are only touched by the stress part",
+    "line events that revisit a line for the 3rd+ time within one function activation (loop and "
+    "comprehension iterations) are not yield points",
+    "the user functions of the test service are thread-safe (they touch only their arguments)",
+    "requests fixed per mix (hand-written universe: nested objects, arrays, facets, protocol "
+    "attributes); 2 ?wsdl callers use the same URL",
+    "a run whose worker does not reach a yield point for 2 s is counted inconclusive, not judged",
+]
+EXHAUSTIVE = {
+    "quick": ["all single-pre-emption schedules (stride 1 over the yield points defined in RULE) "
+              "of every 2-thread mix, both start orders",
+              "all pre-emption-free orders of every mix"],
+    "thorough": ["all single-pre-emption schedules (stride 1 over the yield points defined in "
+                 "RULE) of every 2-thread mix, both start orders",
+                 "all pre-emption-free orders of every mix"],
+}
+MAXTASKSPERCHILD = 6      # spyne's module-level cdicts keep every generated class alive
 
 # ---------------------------------------------------------------------------------------
 # yield points
@@ -231,6 +268,7 @@ MIXES2 = {
     "soap:rpc+rpc-distinct": ("soap", ["echo1", "order1"]),
     "soap:rpc+invalid": ("soap", ["greet1", "bad_len"]),
     "soap:invalid+invalid": ("soap", ["bad_int", "bad_len"]),
+    "soap:same-method": ("soap", ["echo1", "echo2"]),
     "xml:wsdl+invalid": ("xml", ["wsdl", "bad_int"]),
     "xml:rpc+rpc-distinct": ("xml", ["echo1", "order1"]),
     "xml:rpc+invalid": ("xml", ["greet1", "bad_int"]),
@@ -257,6 +295,12 @@ MIXES_N = {
 }
 MIXES = dict(MIXES2)
 MIXES.update(MIXES_N)
+# the quick tier leaves out three 2-thread mixes whose interactions the others contain
+QUICK_SKIP = ("soap:rpc+rpc-distinct", "json:rpc+rpc-distinct", "http:rpc+rpc-distinct")
+
+
+def mixes2(tier):
+    return sorted(m for m in MIXES2 if tier != "quick" or m not in QUICK_SKIP)
 
 
 # ---------------------------------------------------------------------------------------
@@ -277,22 +321,67 @@ class Run(object):
     wsdl_lock = None
 
 
+_LOCK_TYPES = (type(threading.Lock()), type(threading.RLock()))
+
+
+def _module_locks():
+    """(module dict, name) of every module-level Lock/RLock in the spyne package (import-time
+    objects: scanned once per process)"""
+    found = _state.get("module_locks")
+    if found is None:
+        found = _state["module_locks"] = []
+        for mname, mod in sorted(sys.modules.items()):
+            if mod is not None and (mname == "spyne" or mname.startswith("spyne.")):
+                for name, val in list(vars(mod).items()):
+                    if isinstance(val, _LOCK_TYPES):
+                        found.append((mod, name))
+    return found
+
+
+def _lock_holders(wsgi):
+    """the shared objects of one application whose attributes may be locks"""
+    app = wsgi.app
+    objs = [wsgi, app, app.in_protocol, app.out_protocol, app.interface, wsgi.doc,
+            getattr(wsgi.doc, "wsdl11", None), getattr(app.interface, "docs", None),
+            getattr(getattr(app.interface, "docs", None), "xml_schema", None),
+            getattr(wsgi, "event_manager", None), getattr(app, "event_manager", None)]
+    objs.extend(app.services)
+    return [o for o in objs if o is not None and hasattr(o, "__dict__")]
+
+
 def _instrument(wsgi, S):
-    """scheduler-aware locks on the instances + build counter; -> undo()"""
+    """every threading.Lock/RLock held by the shared spyne objects (application, transport,
+    protocols, interface documents, memoizers, spyne module globals) is replaced *on the
+    instance* by a scheduler-aware lock; -> (the WSDL build lock, undo())"""
     from spyne.util import memo
     saved = []
-    lk = sched.SchedLock(S, "WsgiApplication._mtx_build_interface_document")
-    saved.append((wsgi, "_mtx_build_interface_document", wsgi._mtx_build_interface_document))
-    wsgi._mtx_build_interface_document = lk
+
+    def swap(obj, name, label):
+        val = getattr(obj, name)
+        reent = isinstance(val, _LOCK_TYPES[1])
+        lk = sched.SchedLock(S, label, reentrant=reent)
+        saved.append((obj, name, val))
+        setattr(obj, name, lk)
+        return lk
+
+    wsdl_lock = None
+    for obj in _lock_holders(wsgi):
+        for name, val in list(vars(obj).items()):
+            if isinstance(val, _LOCK_TYPES):
+                lk = swap(obj, name, "%s.%s" % (type(obj).__name__, name))
+                if obj is wsgi and name == "_mtx_build_interface_document":
+                    wsdl_lock = lk
     for i, m in enumerate(list(memo.memoize.registry)):
-        if hasattr(m, "lock"):
-            saved.append((m, "lock", m.lock))
-            m.lock = sched.SchedRLock(S, "memoize[%s].lock" % getattr(m.func, "__name__", i))
+        if isinstance(getattr(m, "lock", None), _LOCK_TYPES):
+            swap(m, "lock", "memoize[%s].lock" % getattr(m.func, "__name__", i))
+    for mod, name in _module_locks():
+        if isinstance(getattr(mod, name, None), _LOCK_TYPES):
+            swap(mod, name, "%s.%s" % (mod.__name__, name))
 
     def undo():
         for obj, name, val in saved:
             setattr(obj, name, val)
-    return lk, undo
+    return wsdl_lock, undo
 
 
 def count_builds(wsgi, counter):
@@ -466,6 +555,9 @@ def run_case(case, rec):
         rec.case(case, failures=[], nontrivial=None, classes=classes + ["inconclusive"])
         return []
     fails = judge(case, r)
+    rec.count("schedules")
+    if fails:
+        rec.count("schedules-deviating")
     pre = S.preemptions
     classes.append("preemptions:%d" % len(pre))
     nt = None
@@ -494,6 +586,12 @@ def run_stress(case, rec):
     wsgi = build_app(kind)
     counter = []
     count_builds(wsgi, counter)
+    # The caches that fill on first use are the business of the scheduled part (which finds
+    # their races deterministically); here they are warm, so that what the stress part
+    # reports does not depend on the luck of the first milliseconds.  ?wsdl stays cold.
+    for rid in rids:
+        if rid != "wsdl":
+            drive.wsgi_call(wsgi, make_environ(kind, rid))
     bad = []          # (thread, iteration, rid, part, got)
     gate = threading.Event()
 
@@ -580,7 +678,7 @@ def shards(tier):
     quick = tier == "quick"
     for mix_id in sorted(MIXES):
         out.append({"kind": "enum", "part": "k0", "mix": mix_id})
-    for mix_id in sorted(MIXES2):
+    for mix_id in mixes2(tier):
         for start in (0, 1):
             for i in range(K1_PARTS):
                 out.append({"kind": "enum", "part": "k1", "mix": mix_id, "start": start,
@@ -592,6 +690,8 @@ def shards(tier):
                             "grid": g, "i": i, "of": parts})
     for mix_id in sorted(MIXES):
         n_thr = len(MIXES[mix_id][1])
+        if n_thr == 2 and mix_id not in mixes2(tier):
+            continue
         if n_thr > 2:
             n, parts = (100, 2) if quick else (1500, 4)
         else:
@@ -604,7 +704,7 @@ def shards(tier):
         reps = 1 if quick else 6
         for i in range(reps):
             out.append({"kind": "enum", "part": "stress", "mix": mix_id, "i": i,
-                        "threads": 16 if quick else 32, "iters": 40 if quick else 100})
+                        "threads": 16 if quick else 32, "iters": 100})
     return out
 
 
@@ -613,7 +713,7 @@ def _perms(n):
     return [list(p) for p in itertools.permutations(range(n))]
 
 
-def schedules_for(shard):
+def schedules_for(shard, rec=None):
     """enumerated shards -> iterator of cases"""
     mix_id = shard["mix"]
     n = len(MIXES[mix_id][1])
@@ -625,6 +725,8 @@ def schedules_for(shard):
         a = shard["start"]
         b = 1 - a
         total, per = calibrate(mix_id, [a, b])
+        if shard["i"] == 0 and rec is not None:
+            rec.count("yield-points|%s|first=%s" % (mix_id, MIXES[mix_id][1][a]), per[a])
         pos = list(range(0, per[a], shard["stride"]))
         for s in pos[shard["i"]::shard["of"]]:
             yield {"mix": mix_id, "k": 1,
@@ -668,7 +770,7 @@ def run_shard(shard, rec):
         rec.hyp(schedule_strategy(shard["mix"], shard["mode"]),
                 lambda case: run_case(case, rec), shard["n"])
     else:
-        for case in schedules_for(shard):
+        for case in schedules_for(shard, rec):
             run_case(case, rec)
 
 
